@@ -46,7 +46,8 @@ class C14(Check):
             '1-3 variables from {radius, thickness, conic, index, asphere_coeff, tilt, decenter}, scaled or unscaled, bounded '
             'or unbounded x optimiser {generic default, generic Nelder-Mead, LeastSquares, DualAnnealing, '
             'DifferentialEvolution workers=1; thorough: workers=2 and -1} with small iteration budgets, as the history '
-            'optimise -> undo -> optimise. Oracle: merit recomputed from operand values on a twin lens; variable round trip; '
+            'optimise -> undo -> optimise or optimise -> optimise (same optimizer) -> undo -> undo; bounds around the start '
+            'value or with the start value exactly on a bound (a bound of exactly 0 for tilt/decentre/conic). Oracle: merit recomputed from operand values on a twin lens; variable round trip; '
             'lens state vs result.x / result.fun; monotonicity; bounds; pickup relation; undo restores the serialised lens. '
             'Non-trivial: >=3 objective evaluations and a variable moved by > 1e-6. Distinct = distinct case hashes.')
     assumptions = ['"not worse than the start" is claimed for all front ends used here (scipy keeps x0 in the DE population and '
@@ -55,17 +56,19 @@ class C14(Check):
                    'compared for 1, 2 and all workers)']
 
     def budget(self, tier):
-        return (12, 8) if tier == 'quick' else (150, 16)
+        return (60, 8) if tier == 'quick' else (200, 16)
 
     def strategy(self, tier):
         opts = OPTIMIZERS + (['de2', 'de_all'] if tier == 'thorough' else [])
         operand = st.fixed_dictionaries(dict(type=st.sampled_from(OPERANDS), rel=f(0.7, 1.3), weight=st.sampled_from(
             [1.0, 1.0, 0.5, 2.0]), a=sel, h=f(0.0, 1.0)))
         var = st.fixed_dictionaries(dict(type=st.sampled_from(VARTYPES), s=sel, scaled=st.booleans(), bounded=st.booleans(),
-                                         axis=st.sampled_from(['x', 'y'])))
+                                         axis=st.sampled_from(['x', 'y']),
+                                         bmode=st.sampled_from(['around', 'around', 'start_at_lower', 'start_at_upper'])))
         return st.fixed_dictionaries(dict(spec=GL.lens_spec(OPT, min_surfs=2), operands=st.lists(operand, min_size=1, max_size=3),
                                           variables=st.lists(var, min_size=1, max_size=3), opt=st.sampled_from(opts),
-                                          pickup=st.booleans(), second=st.sampled_from(OPTIMIZERS[:3])))
+                                          pickup=st.booleans(), second=st.sampled_from(OPTIMIZERS[:3]),
+                                          hist=st.sampled_from(['undo_then_optimise', 'twice_then_undo_undo'])))
 
     def describe(self, case):
         s = case['spec']
@@ -132,7 +135,12 @@ class C14(Check):
                     'asphere_coeff': abs(cur) + 1e-6, 'tilt': 0.02, 'decenter': 0.2}[vt]
             need_bounds = vd['bounded'] or case['opt'] in ('dual_annealing', 'de1', 'de2', 'de_all')
             if need_bounds:
-                kw['min_val'], kw['max_val'] = cur - span, cur + span
+                # the start value may sit exactly on a bound (for tilt, decentre, conic 0 that bound is exactly 0)
+                bm = vd.get('bmode', 'around')
+                if case['opt'] in ('dual_annealing', 'de1', 'de2', 'de_all'):
+                    bm = 'around'      # scipy's global optimisers map x0 to the unit box and reject round-off outside it
+                kw['min_val'] = cur if bm == 'start_at_lower' else cur - span
+                kw['max_val'] = cur if bm == 'start_at_upper' else cur + span
             quiet(prob.add_variable, o, vt, surface_number=k, apply_scaling=vd['scaled'], **kw)
         if not prob.variables:
             return None
@@ -148,19 +156,6 @@ class C14(Check):
             v = float(np.ravel(Operand(op.type, op.target, op.weight, data).value)[0])
             tot += (op.weight * (v - op.target)) ** 2
         return tot
-
-    def run_opt(self, name, prob):
-        from optiland import optimization as OP
-        if name == 'generic':
-            return quiet(OP.OptimizerGeneric(prob).optimize, maxiter=8, disp=False, tol=1e-6), 'generic'
-        if name == 'nelder-mead':
-            return quiet(OP.OptimizerGeneric(prob).optimize, method='Nelder-Mead', maxiter=25, disp=False, tol=1e-6), 'generic'
-        if name == 'least_squares':
-            return quiet(OP.LeastSquares(prob).optimize, maxiter=10, disp=False, tol=1e-8), 'ls'
-        if name == 'dual_annealing':
-            return quiet(OP.DualAnnealing(prob).optimize, maxiter=3, disp=False), 'generic'
-        workers = {'de1': 1, 'de2': 2, 'de_all': -1}[name]
-        return quiet(OP.DifferentialEvolution(prob).optimize, maxiter=2, disp=False, workers=workers), 'generic'
 
     def check(self, case, out):
         from optiland import optimization as OP
@@ -188,6 +183,8 @@ class C14(Check):
             return
         for v in prob.variables:
             out.cls('var_' + v.type + ('_scaled' if v.apply_scaling else '_raw') + ('_bounded' if v.min_val is not None else ''))
+            if v.min_val is not None and (v.min_val == 0 or v.max_val == 0):
+                out.cls('bound_exactly_zero')
         for op in prob.operands:
             out.cls('operand_' + op.type)
         # 1. merit function definition, on a twin lens in the same state
@@ -196,7 +193,9 @@ class C14(Check):
         if not math.isfinite(m0):
             out.cls('merit_not_finite_at_start')
             return
-        out.close('merit_is_weighted_sum_of_squares', m0, self.recompute_merit(prob, twin), rtol=1e-9, atol=1e-300)
+        # round-off floor of the merit: operands are only defined to ~1e-10 of their size
+        self.floor = sum((op.weight * 1e-11 * max(abs(op.target), self.Lsc)) ** 2 for op in prob.operands)
+        out.close('merit_is_weighted_sum_of_squares', m0, self.recompute_merit(prob, twin), rtol=1e-9, atol=self.noise(m0))
         out.close('rss_is_sqrt_of_merit', float(prob.rss()), math.sqrt(m0), rtol=1e-12)
         # 2. variables are faithful handles
         for v in prob.variables:
@@ -211,6 +210,8 @@ class C14(Check):
                            vtype=v.type, scaled=v.apply_scaling, value=val, bounds=[float(b[0]), float(b[1])])
             v.update(val)
             out.close('variable_set_then_read', float(np.ravel(v.value)[0]), val, rtol=1e-12, atol=1e-15, vtype=v.type)
+        self.start_on_bound = any(v.min_val is not None and (float(np.ravel(v.value)[0]) in (float(v.bounds[0]), float(v.bounds[1])))
+                                  for v in prob.variables)
         snap0 = lens_state(o)
         x_start = [float(np.ravel(v.value)[0]) for v in prob.variables]
         # 3. optimise
@@ -219,36 +220,72 @@ class C14(Check):
         self.after_optimise(out, case['opt'], prob, res, kind, m0, o, pick, tag='')
         moved = max(abs(a - b) for a, b in zip(x_start, [float(np.ravel(v.value)[0]) for v in prob.variables]))
         nfev = int(getattr(res, 'nfev', 0))
-        # 4. undo restores the lens
         optimizer = self.last_optimizer
-        optimizer.undo()
-        o.update()          # documented way to bring pickups/solves in line after an edit
-        diff = state_close(lens_state(o), snap0, 1e-10)
-        out.expect('undo_restores_the_lens', diff is None, diff=diff, opt=case['opt'])
-        m_undo = float(prob.sum_squared())
-        out.close('undo_restores_the_merit', m_undo, m0, rtol=1e-7, atol=1e-300)
-        # 5. optimise again (history optimise / undo / optimise)
-        res2, kind2 = self.run_opt(case['second'], prob)
-        self.after_optimise(out, case['second'], prob, res2, kind2, m_undo, o, pick, tag='_second')
+        out.cls('history_' + case.get('hist', 'undo_then_optimise'))
+        if case.get('hist') == 'twice_then_undo_undo':
+            # 4'. a second optimize() on the same optimizer object, then two undos: each undo takes back one run
+            snap1 = lens_state(o)
+            m1 = float(prob.sum_squared())
+            try:
+                res2, kind2 = self.run_opt(case['opt'], prob, reuse=True)
+            except ValueError as e:
+                if 'x0 lay outside' in str(e):
+                    # scipy's differential evolution maps x0 to the unit box and rejects a first solution that sits on
+                    # a bound because of its own round-off; nothing of the property is decided by that
+                    out.cls('scipy_rejects_x0_on_bound')
+                    return
+                raise
+            self.after_optimise(out, case['opt'], prob, res2, kind2, m1, o, pick, tag='_second')
+            optimizer.undo()
+            o.update()
+            diff = state_close(lens_state(o), snap1, 1e-10)
+            out.expect('undo_takes_back_the_last_run', diff is None, diff=diff, opt=case['opt'])
+            optimizer.undo()
+            o.update()
+            diff = state_close(lens_state(o), snap0, 1e-10)
+            out.expect('second_undo_restores_the_start', diff is None, diff=diff, opt=case['opt'])
+            out.close('undo_restores_the_merit', float(prob.sum_squared()), m0, rtol=1e-7, atol=self.noise(m0))
+        else:
+            # 4. undo restores the lens
+            optimizer.undo()
+            o.update()          # documented way to bring pickups/solves in line after an edit
+            diff = state_close(lens_state(o), snap0, 1e-10)
+            out.expect('undo_restores_the_lens', diff is None, diff=diff, opt=case['opt'])
+            m_undo = float(prob.sum_squared())
+            out.close('undo_restores_the_merit', m_undo, m0, rtol=1e-7, atol=self.noise(m0))
+            # 5. optimise again (history optimise / undo / optimise)
+            try:
+                res2, kind2 = self.run_opt(case['second'], prob)
+            except ValueError as e:
+                if self.start_on_bound and ('outside of provided bounds' in str(e) or 'infeasible' in str(e)):
+                    # the restored start value sits on a bound up to round-off (a thickness is read back as a difference
+                    # of vertex positions); scipy's least_squares rejects a start 1 ulp outside the box
+                    out.cls('scipy_rejects_x0_on_bound')
+                    return
+                raise
+            self.after_optimise(out, case['second'], prob, res2, kind2, m_undo, o, pick, tag='_second')
         out.nt(nfev >= 3 and moved > 1e-6)
 
-    def run_opt(self, name, prob):            # noqa: F811  (keeps a handle on the optimizer object for undo)
+    def run_opt(self, name, prob, reuse=False):
+        """one optimize() call; reuse=True runs it on the optimizer object of the previous call"""
         from optiland import optimization as OP
-        if name == 'generic':
-            self.last_optimizer = OP.OptimizerGeneric(prob)
-            return quiet(self.last_optimizer.optimize, maxiter=8, disp=False, tol=1e-6), 'generic'
-        if name == 'nelder-mead':
-            self.last_optimizer = OP.OptimizerGeneric(prob)
-            return quiet(self.last_optimizer.optimize, method='Nelder-Mead', maxiter=25, disp=False, tol=1e-6), 'generic'
-        if name == 'least_squares':
-            self.last_optimizer = OP.LeastSquares(prob)
-            return quiet(self.last_optimizer.optimize, maxiter=10, disp=False, tol=1e-8), 'ls'
-        if name == 'dual_annealing':
-            self.last_optimizer = OP.DualAnnealing(prob)
-            return quiet(self.last_optimizer.optimize, maxiter=3, disp=False), 'generic'
-        workers = {'de1': 1, 'de2': 2, 'de_all': -1}[name]
-        self.last_optimizer = OP.DifferentialEvolution(prob)
-        return quiet(self.last_optimizer.optimize, maxiter=2, disp=False, workers=workers), 'generic'
+        cls, kw, kind = {
+            'generic': (OP.OptimizerGeneric, dict(maxiter=8, disp=False, tol=1e-6), 'generic'),
+            'nelder-mead': (OP.OptimizerGeneric, dict(method='Nelder-Mead', maxiter=25, disp=False, tol=1e-6), 'generic'),
+            'least_squares': (OP.LeastSquares, dict(maxiter=10, disp=False, tol=1e-8), 'ls'),
+            'dual_annealing': (OP.DualAnnealing, dict(maxiter=3, disp=False), 'generic'),
+            'de1': (OP.DifferentialEvolution, dict(maxiter=2, disp=False, workers=1), 'generic'),
+            'de2': (OP.DifferentialEvolution, dict(maxiter=2, disp=False, workers=2), 'generic'),
+            'de_all': (OP.DifferentialEvolution, dict(maxiter=2, disp=False, workers=-1), 'generic'),
+        }[name]
+        if not reuse:
+            self.last_optimizer = cls(prob)
+        return quiet(self.last_optimizer.optimize, **kw), kind
+
+    def noise(self, m):
+        """round-off allowance on a merit value m = sum (w (v - t))^2 whose operand values v carry an error d (the
+        prescription is reached by a different sequence of float operations): 2 sqrt(m) d + d^2 with d^2 = self.floor"""
+        return 2 * math.sqrt(max(m, 0.0) * self.floor) + self.floor
 
     def after_optimise(self, out, name, prob, res, kind, m_start, o, pick, tag):
         x = np.ravel(np.asarray(res.x, dtype=float))
@@ -261,11 +298,21 @@ class C14(Check):
             # scipy's L-BFGS-B returns x0 together with the objective of a failed line-search point
             out.cls('scipy_abnormal_termination')
         if math.isfinite(m_now) and fun < 1e9 and not abnormal:
-            out.close('merit_reproduces_returned_objective' + tag, m_now, fun, rtol=1e-7, atol=1e-300, opt=name)
+            if name == 'dual_annealing' and m_now < fun:
+                # the local search inside dual_annealing is L-BFGS-B, whose failed line searches hand back the objective
+                # of a neighbouring trial point without a message (same scipy behaviour as above): the lens is at
+                # result.x (clause lens_is_at_returned_solution) and is not worse than reported
+                out.cls('scipy_inconsistent_pair_from_local_search')
+                out.ok('merit_reproduces_returned_objective' + tag)
+            else:
+                out.close('merit_reproduces_returned_objective' + tag, m_now, fun, rtol=1e-7, atol=self.noise(max(m_now, fun)), opt=name)
         if math.isfinite(m_now):
-            # round-off floor of the merit: operands are only defined to ~1e-10 of their size
-            floor = sum((op.weight * 1e-11 * max(abs(op.target), self.Lsc)) ** 2 for op in prob.operands)
-            out.expect('not_worse_than_start' + tag, m_now <= m_start * (1 + 1e-9) + floor, start=m_start, now=m_now,
+            slack = self.noise(m_start)
+            if name == 'least_squares' and self.start_on_bound:
+                # scipy's trust-region solver first moves a start value that sits on a bound strictly inside it
+                # (relative step 1e-10) and may return that point
+                slack += sum((op.weight * 1e-8 * max(abs(op.target), self.Lsc)) ** 2 for op in prob.operands) + 1e-6 * m_start
+            out.expect('not_worse_than_start' + tag, m_now <= m_start * (1 + 1e-9) + slack, start=m_start, now=m_now,
                        opt=name)
         for v, xv in zip(prob.variables, vals):
             if v.min_val is not None:
